@@ -227,7 +227,7 @@ def units(tier, seed):
         if prog.name in ('sum(axis=0)', 'sum(square,axis=0)'):
             continue     # known finding of C03 (pb_sum argument order)
         branching = 'clip' in prog.tags or 'lu' in prog.tags or 'posdet' in prog.tags or prog.name in ('absolute', 'sign')
-        hsel = [('F22', 'PB', 'PB')] if tier == 'quick' else [('F22', 'PB', 'PB'), ('F22', 'PB', 'SAME', 'PB'), ('GRAD', 'PB', 'PB')]
+        hsel = [('F22', 'PB', 'PB')] if tier == 'quick' else [('F22', 'PB', 'PB'), ('F22', 'PB', 'SAME', 'PB'), ('F32', 'PB', 'F11', 'PB')]     # (no driver calls here: they are defined for functions R^N -> R^M only)
         if branching:
             hsel = [('F11', 'PB', 'PB')]      # (one branch per element and direction: a single direction)
         for h in hsel:
